@@ -141,6 +141,10 @@ def cfgOp (W : World) (s : Schema) (c : Cfg) (n : Nat) (j : Json) : R (Json × C
       match validateCfg W fuelDefault s "" c with
       | some e => pure (cerrToJson e, c, n)
       | none => pure (Json.str "ok", c, n)
+  | "validate_collect" => do
+      match fuelDefault with
+      | 0 => throw "fuel"
+      | f + 1 => pure (Json.mkObj [("errors", Json.arr ((validateCollect W f s "" c).map cerrToJson).toArray)], c, n)
   | "reset" => do
       let o := resetValue W fuelDefault s c (← fChars j "key") n
       pure (outJson o, o.cfg, o.next)
